@@ -10,6 +10,8 @@ Violations(line) ==
   IF o.panic THEN {"no-panic"}
   ELSE (IF o.res # Coarse(e.res) THEN {"result"} ELSE {}) \cup (IF o.res = Coarse(e.res) /\ o.from # e.from THEN {"source-file"} ELSE {})
        \cup (IF o.res = Coarse(e.res) /\ o.verified # Verified(line.in.cfg, line.in.op, line.in.rootIn) THEN {"trust-from-the-file-used"} ELSE {})
+       \* nothing is remembered about a file: the same call after the file was rewritten in place sees the file as it is then
+       \cup (IF o.reload = "stale" THEN {"reload-reflects-the-file"} ELSE {})
 Why(line) == line.in.op \o "--expected-" \o Expected(line.in.cfg, line.in.op).res \o "-got-" \o line.obs.res
 Init == l = 1
 Next == /\ l <= Len(Trace)
